@@ -9,7 +9,7 @@ import json, os, shutil, subprocess, sys, re
 HERE = os.path.dirname(os.path.abspath(__file__))
 pid, ab = sys.argv[1], sys.argv[2]
 keep = "--keep" in sys.argv
-src = "/tmp/seedout/%s/%s" % (pid, ab)
+src = "%s/%s/%s" % (os.environ.get("SEEDOUT", "/tmp/seedout"), pid, ab)
 patch = os.path.join(src, "patch.diff")
 demo = os.path.join(src, "demo.rs")
 WT = "/tmp/wtv"
